@@ -113,14 +113,32 @@ def run(ctx):
         rep.floor(r, n)
 
 
+def is_pop(e, queue=None):
+    """Taking the next code off the front of the queue: VecDeque::pop_front(&mut q) or Iterator::next(&mut q) on the owning
+    iterator of the collected codes."""
+    e = hir.simp(e)
+    if not (hir.is_call(e, "pop_front") or hir.callee_decl(e) == "core::iter::traits::iterator::Iterator::next"):
+        return False
+    q = hir.peel(e["args"][0])
+    return q.get("k") == "local" and (queue is None or q["name"] == queue)
+
+
+def queue_name(b):
+    wl = [hir.while_loop(n) for n in hir.walk(b["hir"]) if n.get("k") == "loop" and n.get("src") == "While"]
+    c = hir.simp(wl[0][0]) if len(wl) == 1 else {}
+    if c.get("k") == "letexpr" and is_pop(c["init"]):
+        return hir.peel(hir.simp(c["init"])["args"][0])["name"]
+    return None
+
+
 def code_match(b):
     wl = [hir.while_loop(n) for n in hir.walk(b["hir"]) if n.get("k") == "loop" and n.get("src") == "While"]
     if len(wl) != 1:
         raise AnchorMissing("parse: one while-let loop expected")
     cond, body = wl[0]
     c = hir.simp(cond)
-    if not (c.get("k") == "letexpr" and hir.is_call(hir.simp(c["init"]), "pop_front") and hir.is_local(hir.simp(c["init"])["args"][0], "parts")):
-        raise Unrecognised("loop condition is not `let Some(part) = parts.pop_front()`")
+    if not (c.get("k") == "letexpr" and is_pop(c["init"])):
+        raise Unrecognised("loop condition is not `let Some(part) = <queue>.pop_front()` (or .next() on its owning iterator)")
     part = c["pat"]["pats"][0].get("name")
     ms = [n for n in hir.walk(body) if n.get("k") == "match" and hir.is_local(n["scrut"], part)]
     if len(ms) != 1:
@@ -210,7 +228,7 @@ def rule_extended(facts, rep):
         code = next(iter(ints))
         slot = {38: "fg", 48: "bg", 58: "underline"}.get(code)
         sc = hir.simp(body["scrut"])
-        pops = sc.get("k") == "tuple" and len(sc["es"]) == 2 and all(hir.is_call(hir.simp(x), "pop_front") and hir.is_local(hir.simp(x)["args"][0], "parts") for x in sc["es"])
+        pops = sc.get("k") == "tuple" and len(sc["es"]) == 2 and all(is_pop(x, queue_name(b)) for x in sc["es"])
         rep.check(slot is not None and pops, "extended", b["path"], f"{code}:looks-ahead-two", "pops (mode, first value) from the queue", loc(b, a))
         seen = {}
         for arm in body["arms"]:
@@ -232,7 +250,7 @@ def rule_extended(facts, rep):
                 ok = False
                 if inner.get("k") == "match":
                     isc = hir.simp(inner["scrut"])
-                    ok = isc.get("k") == "tuple" and len(isc["es"]) == 2 and all(hir.is_call(hir.simp(x), "pop_front") for x in isc["es"])
+                    ok = isc.get("k") == "tuple" and len(isc["es"]) == 2 and all(is_pop(x, queue_name(b)) for x in isc["es"])
                     for ia in inner["arms"]:
                         ip = ia["pat"]
                         if ip.get("k") == "ptuple" and all(q.get("k") == "pts" for q in ip["pats"]):
